@@ -156,6 +156,16 @@ class Opaque:
         return self
 
 
+class TieRefs:
+    """result of std::tie(a, b, ...): a tuple of references"""
+
+    def __init__(self, refs):
+        self.refs = refs
+
+    def __deepcopy__(self, memo):
+        return self
+
+
 class Iter:
     """iterator into a modelled sequence"""
 
@@ -705,6 +715,8 @@ class Interp:
         ts = fr.fn.type(e.get("t")).replace("const ", "")
         if ts.startswith("std::pair<") and len(vals) == 2:
             return (vals[0], vals[1])
+        if ts.startswith("std::tuple<"):
+            return tuple(vals)
         return PyVec(vals)
 
     def e_lambda(self, e, fr):
@@ -929,12 +941,15 @@ class Interp:
                 return copy.deepcopy(vals[0])   # (initializer_list[, allocator])
             if base.startswith("std::vector<") and len(vals) >= 1 and isinstance(vals[0], int):
                 fill = vals[1] if len(vals) > 1 and not isinstance(vals[1], Obj) else None
-                inner = base[len("std::vector<"):].rsplit(", std::allocator", 1)[0]
+                inner = base[len("std::vector<"):]
+                inner = inner.rsplit(", std::allocator", 1)[0] if ", std::allocator" in inner else inner[:-1]
                 if fill is None:
                     fill = self.default_for_type(fr.fn, inner)
                 return PyVec([copy.deepcopy(fill) for _ in range(vals[0])])
         if base.startswith("std::pair<") and len(args) == 2:
             return (self.rv(self.eval(args[0], fr)), self.rv(self.eval(args[1], fr)))
+        if base.startswith("std::tuple<") and args:
+            return tuple(copy.deepcopy(self.rv(self.eval(a, fr))) for a in args)
         if (base.startswith("std::shared_ptr<") or base.startswith("std::unique_ptr<")) and len(args) == 1:
             return self.rv(self.eval(args[0], fr))      # smart pointers are modelled by their pointee
         if (base.startswith("std::map<") or base.startswith("std::unordered_map<")) and args:
@@ -1010,7 +1025,16 @@ class Interp:
             return A(0)
         if name == "operator=" and e.get("obj") is not None and \
                 bn in ("std::pair::operator=", "std::tuple::operator=", "std::optional::operator="):
-            r = self.eval(e["obj"], fr)
+            r = OBJ()
+            if isinstance(r, TieRefs):
+                val = V(0)
+                if isinstance(val, (tuple, list)) and len(val) == len(r.refs):
+                    for rr, v in zip(r.refs, val):
+                        if not isinstance(rr, Ref):
+                            raise AnalysisBroken("interp: std::tie of an rvalue")
+                        rr.set(copy.deepcopy(v))
+                    return r
+                raise AnalysisBroken("interp: std::tie assigned from %r" % (val,))
             return self.assign(fr, e, r, A(0))
         if name == "operator=" and e.get("lib") and e.get("fid") is None and e.get("obj") is not None:
             # defaulted copy / move assignment of a library record: member-wise copy
@@ -1058,6 +1082,48 @@ class Interp:
             if isinstance(a, (int, float)):
                 return math.sqrt(a)
             return self.world.sym_unop("sqrt", a)
+        if bn == "std::iota" and len(args_n) == 3:
+            a, b, v0 = V(0), V(1), V(2)
+            if isinstance(a, Iter) and isinstance(b, Iter) and a.seq is b.seq:
+                for k, i in enumerate(range(a.pos, b.pos)):
+                    a.seq[i] = v0 + k
+                return None
+        if bn == "std::fill" and len(args_n) == 3:
+            a, b, v0 = V(0), V(1), V(2)
+            if isinstance(a, Iter) and isinstance(b, Iter) and a.seq is b.seq:
+                for i in range(a.pos, b.pos):
+                    a.seq[i] = copy.deepcopy(v0)
+                return None
+        if bn in ("std::sort", "std::stable_sort") and len(args_n) in (2, 3):
+            a, b = V(0), V(1)
+            if isinstance(a, Iter) and isinstance(b, Iter) and a.seq is b.seq:
+                import functools
+                items = a.seq[a.pos:b.pos]
+                if len(args_n) == 3:
+                    cmpf = V(2)
+
+                    def cmp(x, y):
+                        if self.truth(self.call_closure(cmpf, [x, y], e)):
+                            return -1
+                        if self.truth(self.call_closure(cmpf, [y, x], e)):
+                            return 1
+                        return 0
+                    items = sorted(items, key=functools.cmp_to_key(cmp))
+                else:
+                    items = sorted(items)
+                a.seq[a.pos:b.pos] = items
+                return None
+        if bn == "std::tie":
+            return TieRefs([A(i) for i in range(len(args_n))])
+        if bn == "std::tuple::operator=" and e.get("obj") is not None:
+            tgt = self.rv(OBJ()) if not isinstance(OBJ(), TieRefs) else OBJ()
+            val = V(0)
+            if isinstance(tgt, TieRefs) and isinstance(val, (tuple, list)) and len(val) == len(tgt.refs):
+                for r, v in zip(tgt.refs, val):
+                    if not isinstance(r, Ref):
+                        raise AnalysisBroken("interp: std::tie of an rvalue")
+                    r.set(copy.deepcopy(v))
+                return tgt
         if bn == "std::swap" and len(args_n) == 2:
             ra, rb = A(0), A(1)
             if isinstance(ra, Ref) and isinstance(rb, Ref):
@@ -1129,6 +1195,8 @@ class Interp:
                 return None
             if name == "size":
                 return len(c)
+            if name == "capacity":
+                return len(c) + 1024
             if name == "empty":
                 return len(c) == 0
             if name == "clear":
@@ -1165,6 +1233,14 @@ class Interp:
                 if isinstance(n, list) and len(n) == 1:
                     n = n[0]            # resize({ n })
                 fill = V(1) if len(args_n) > 1 else None
+                if fill is None and len(c) < n:
+                    ts = fr.fn.type(strip(e["obj"]).get("t")).replace("const ", "")
+                    if ts.startswith("std::vector<") and ts.endswith(">"):
+                        inner = ts[len("std::vector<"):-1].strip()
+                        k = inner.rfind(", std::allocator<")
+                        if k > 0:
+                            inner = inner[:k]
+                        fill = self.default_for_type(fr.fn, inner)
                 while len(c) > n:
                     c.pop()
                 while len(c) < n:
